@@ -2,7 +2,7 @@
    ExtrOcamlBasic only (bool, option, list, prod, unit, sumbool mapped to
    OCaml's); Z, positive, nat stay as extracted inductives; no Extract Constant. *)
 From Coq Require Import ExtrOcamlBasic.
-From NX Require Import Bytes Reply Wire Query Forwarder Profile Discovery ProxyResolve Mdns CacheTTL Resolver Manager Listen Handler ResolvConf Config.
+From NX Require Import Bytes Reply Wire Query Forwarder Profile Discovery ProxyResolve Mdns CacheTTL Resolver Manager Listen Handler ResolvConf Config ClientInfo.
 Extraction Language OCaml.
 Extraction "model.ml"
   udp_adjust udp_reply tcp_frame tc_bit c05_udp_ok c05_tcp_ok
@@ -16,4 +16,5 @@ Extraction "model.ml"
   mstep m0 get_obj spec_best find_best no_unreach c16_ok c04_ok
   activate_ops deactivate_ops apply_ops crash_activate crash_deactivate nameservers kept_lines
   apply_items save load parse_cmd
+  short_id lan_client_info device_headers valid_header_value xxhash64 mac_string
   mdns0 announce views_agree mdns_lookup_host mdns_lookup_addr ptr_ip is_private_reverse spec_reverse private_spec proxy_resolve c12_ok to4.
